@@ -38,7 +38,7 @@ CONTRACTS = [
                 ("size-range", "0 <= result < (1 << 63)")], top=["C09-payload-size"],
        use=[("U64_RANGE", {"x": "as_int(value)"}), ("ZZ_NONNEG", {"v": "as_int(value)"}),
             ("ZIGZAG_RANGE", {"v": "as_int(value)", "n": "64"})],
-       props=["C09"]),
+       props=["C09", "C10"]),
     FN("betterproto._serialize_single",
        types={"field_number": "int", "proto_type": "str", "value": "obj", "serialize_empty": "bool", "wraps": "str"},
        returns="bytes",
@@ -52,7 +52,7 @@ CONTRACTS = [
        requires=[FN_RANGE, TY],
        ensures=[("C09-record-size", "result == len(RECS(field_number, proto_type, ENCP(proto_type, wraps, value), serialize_empty, wraps))")],
        top=["C09-record-size"],
-       props=["C09"]),
+       props=["C09", "C10"]),
 ]
 
 EXTRA_CONTRACTS = _v.CONTRACTS
